@@ -40,6 +40,39 @@ CLAIMED.update({
         ref='4/C06'),
 })
 
+CLAIMED.update({
+    'C03': dict(
+        text='Bounded model checking of the runner MIR (run, create_runtime, run_instructions, run_instruction, update_output, run_on_error_instruction, '
+             'bind_command_arguments, Commands lookups) on a symbolic instruction vector with scripted commands returning a fully symbolic CommandResult per '
+             'fetch/execute iteration, against the abstract machine of the property in lockstep: invocations (which, arguments, output variable), on_error '
+             'arguments, final variables, success/failure with the failing line and source.',
+        note='Bounds: quick 3 lines x 5 iterations and 4 x 4; thorough 3x7, 4x6, 5x5. Labels {:a,:b} + undefined target, line jumps 0..n+1, values {0,1,7,v}, '
+             'on_error present or not. Programs enter at runner::run (parser half is C01/C08). REPL not covered. ' + TRUST,
+        ref='4/C03'),
+    'C13': dict(
+        text='The C03 harness with Atomic<bool>::load returning a symbolic monotone sequence b_j (one value per poll): every instant at which a command or '
+             'another thread can have raised the flag is a flip position. Obligations: no command starts at or after the first poll that saw the flag, the run '
+             'returns Ok, and the returned variables are the store of that instant (lockstep abstract machine with the same halt sequence).',
+        note='Threads are modelled at the only interaction point (the SeqCst load); real preemption inside a command and weak-memory effects are outside. '
+             'Bounds as C03. ' + TRUST,
+        ref='4/C13'),
+    'C11': dict(
+        text='Bounded model checking of the real set/set_by_name/get_by_name/is_defined/get_all_var_names/unset_all_vars/clear_scope/scope_push_stack/'
+             'scope_pop_stack run functions, utils::scope::push/pop, types::scope::clear and the state helpers, executed through the real runner: for each '
+             'history shape all arguments, --copy lists (undefined and repeated names included), output variables and the initial variable map are symbolic; '
+             'final variables equal a map + stack-of-maps specification; every panic site is an obligation.',
+        note='Bounds: names {a, ab, s::x}, values {1,2,empty}, quick 132 history shapes of <= 5 ops, thorough 612 of <= 6. unset is represented by its body '
+             '(set_by_name); put_handle key is an arbitrary non-live key. ' + TRUST,
+        ref='4/C11'),
+    'C15': dict(
+        text='Bounded model checking of Commands::{new,set,get,exists,get_for_use,remove,get_all_command_names} MIR on histories from new(): op kinds '
+             'case-split, all names / alias lists / lookup keys symbolic over a 3-name universe; after every step both tables equal the name-table + '
+             'alias-table specification (refusals leave the state unchanged, no alias dangles), results agree, listing is sorted.',
+        note='Bounds: quick all 4-step histories with >= 2 registrations, thorough 5-step + selected 6-step. dyn Command name()/aliases() are harness values. '
+             'Script-level alias/unalias/remove_command not yet covered. ' + TRUST,
+        ref='4/C15'),
+})
+
 NOT_APPLICABLE = {
     'C17': 'round-trips live in third-party crates (base64, serde_json, java-properties, std fmt/from_str_radix) that are not in the encoded MIR; '
            'modelling them by specification would make decode(encode(x))=x true by construction (DESIGN.md section 5)',
